@@ -11,24 +11,26 @@ namespace PhyVerif.C14
 open PhyVerif PhyVerif.C09 PhyVerif.C12
 
 /-- Composition theorem: exporting the raw channel indices of a dataset merged from ANY number of
-probes gives back each probe's original channel map. -/
-theorem rawInd_inverts_merge (maps : List (List Nat)) (h : MapsOK maps) :
+probes gives back each probe's original channel map — for ANY non-empty channel maps (arbitrary
+naturals, gaps and duplicates allowed; not only permutations).  An empty map followed by a
+non-empty one breaks it (`[[], [0]]` exports `[1]`). -/
+theorem rawInd_inverts_merge (maps : List (List Nat)) (h : ∀ m ∈ maps, m ≠ []) :
     exportRawInd (mergeChannelMaps maps) (channelProbes maps) = (maps.flatten).map Int.ofNat :=
   Lemmas.rawInd_inverts_merge maps h
 
 /-- Listed channels: nearest channels on the same probe as the peak channel, peak first. -/
 theorem nearest_ok (pos : List (Rat × Rat)) (probes : List Nat) (peak ncw : Nat)
-    (hp : peak < pos.length) (hl : probes.length = pos.length) (hd : pos.Nodup) :
+    (hp : peak < pos.length) :
     nearestOK pos probes peak ncw (nearestSameProbe pos probes peak ncw) = true :=
-  Lemmas.nearest_ok pos probes peak ncw hp hl hd
+  Lemmas.nearest_ok pos probes peak ncw hp
 
 /-- Exported waveforms are the (unwhitened, amplitude-rescaled) waveforms on the listed channels. -/
-theorem waveforms_eq (wfs : List Mat) (inds : List (List Nat)) (hlen : inds.length = wfs.length)
-    (t s j : Nat) (ht : t < wfs.length) (hs : s < (wfs.getD t []).length)
+theorem waveforms_eq (wfs : List Mat) (inds : List (List Nat))
+    (t s j : Nat)
     (hj : j < (inds.getD t []).length) :
     (((exportWaveforms wfs inds).getD t []).getD s []).getD j 0 =
       ((wfs.getD t []).getD s []).getD ((inds.getD t []).getD j 0) 0 :=
-  Lemmas.waveforms_eq wfs inds hlen t s j ht hs hj
+  Lemmas.waveforms_eq wfs inds t s j hj
 
 /-- Cluster depths are the depth of the cluster's peak channel, NaN for ids without spikes; without
 features a spike's depth is its cluster's depth. -/
